@@ -12,9 +12,9 @@ Copies made here carry `_orig = (FuncInfo, original node)` so that types / calle
 from __future__ import annotations
 
 import ast
-from dataclasses import dataclass, field
+from dataclasses import dataclass
 
-from core.cfg import ENTRY, always_exits, expr_conditions
+from core.cfg import ENTRY, always_exits
 from core.loader import FuncInfo, Repo, ancestors, own_nodes, parent
 
 from .common import cfg_of, stmt_of, types_of
@@ -566,15 +566,6 @@ def show(e: ast.AST | None, limit: int = 90) -> str:
     """Normalised text of an (expanded) expression; sub-expressions that stand for a local are printed as that local."""
     if e is None:
         return "?"
-
-    class Tr(ast.NodeTransformer):
-        def visit(self, n):
-            al = getattr(n, "_alias", "")
-            if al and not isinstance(n, ast.Name):
-                return ast.Name(id=al, ctx=ast.Load())
-            return super().visit(n)
-
-    import copy as _copy
 
     def cp(n):
         if isinstance(n, list):
